@@ -96,6 +96,8 @@ def gen(rng, tier, index):
         "checkpoint": rng.random() < 0.12,
         "limit_action": rng.choice(["ignore", "ignore", "ignore", "raise", "warn"]),
         "mprobs_mode": rng.choice(["empirical", "empirical", "optimised", "user"]),
+        "upper": rng.choice([3.0, 10.0, 6.0, 2.0, 1.5]),
+        "ts_bias": rng.choice([0.6, 0.6, 0.9]),
         "user_mprobs": [round(rng.uniform(0.1, 1.0), 3) for _ in range(4)],
         "chain": rng.random() < 0.5,
     }
@@ -123,7 +125,7 @@ def make_data(plan):
 
     tree = make_tree(TREES[plan["tree"]])
     names = tree.get_tip_names()
-    r = random.Random(f"{plan['aln_seed']}|{plan['len']}|{plan['div']}")
+    r = random.Random(f"{plan['aln_seed']}|{plan['len']}|{plan['div']}|{plan.get('ts_bias', 0.6)}")
     tot = sum(plan["base_freqs"])
     weights = [v / tot for v in plan["base_freqs"]]
     codon = plan["null"].startswith("MG94")
@@ -137,7 +139,7 @@ def make_data(plan):
                 # transitions more likely than transversions
                 b = s[i]
                 ts = {"A": "G", "G": "A", "C": "T", "T": "C"}[b]
-                s[i] = ts if r.random() < 0.6 else r.choices("ACGT", weights=weights)[0]
+                s[i] = ts if r.random() < plan.get("ts_bias", 0.6) else r.choices("ACGT", weights=weights)[0]
         txt = "".join(s)
         if codon:
             txt = "".join("GCT" if txt[k:k + 3] in ("TAA", "TAG", "TGA") else txt[k:k + 3]
@@ -201,13 +203,16 @@ def build(plan, which, aln, tree):
 
 
 def set_start(plan, lf):
-    kw = {"lower": 0.05, "upper": 6.0} if plan["bounds"] else {}
+    kw = {"lower": 0.05, "upper": plan.get("upper", 6.0)} if plan["bounds"] else {}
     k = 0
     for rule in lf.get_param_rules():
         p = rule["par_name"]
         if p in ("mprobs", "length", "bprobs", "rate") or rule.get("is_constant"):
             continue
         v = round(0.2 + plan["start"][k % 8] * 4.0, 4)
+        if plan["bounds"]:
+            # a start on (or clipped onto) the declared bound is a legal start
+            v = min(v, kw["upper"]) if plan["start"][(k + 5) % 8] < 0.6 else kw["upper"]
         k += 1
         if "edges" in rule:
             # a scoped parameter keeps its scopes (a rule without edges would make it global again)
@@ -424,7 +429,18 @@ def run(plan, tier="quick") -> RunResult:
                     for a, b in zip(chain, chain[1:]):
                         la, lb = result[a].lnL, result[b].lnL
                         if lb < la - 2.1e-6 * max(1.0, abs(la)):
-                            res.add(f"C16.negative-LR/app-chain:{a}->{b}",
+                            cause = f"app-chain:{a}->{b}"
+                            try:
+                                probe = sm_of(b.replace("-alt", "")).make_likelihood_function(tree)
+                                probe.set_alignment(aln)
+                                probe.initialise_from_nested(result[a].lf)
+                                vals = [r.get("init") for r in probe.get_param_rules()
+                                        if r["par_name"] not in ("length", "mprobs") and not r.get("is_constant")]
+                                if any(v is not None and (v > 50 or v < 1e-6) for v in vals):
+                                    cause = "app:bounds-clip"  # known finding C16-K1, here inside a chain
+                            except Exception:  # noqa: BLE001
+                                pass
+                            res.add(f"C16.negative-LR/{cause}",
                                     f"sequential hypothesis {chain}: lnL({b})={lb!r} < lnL({a})={la!r}; "
                                     f"null opt_args={ob} alt opt_args={oa}", replay)
                             break
